@@ -6,15 +6,38 @@ load_as_concatenated on the bundled test trajectories with 1, 2 and 4 worker pro
 Every array item is handed to the Coq model as its *bit pattern* (an integer), so equality in the
 model is bit identity.
 """
-import hashlib, math, os, shutil, tempfile
+import hashlib, math, os, shutil, sys, tempfile
 import numpy as np
-from core import cz, cn, cb, clist, copt, REPO
+from core import cz, cn, cb, clist, copt, REPO, VERIF
+sys.path.insert(0, os.path.join(VERIF, "translator"))
+import tr_store
 
 PID = "C15"
 PROPS_FILE = "Props/C15.v"
-MODEL_TARGETS = ["Model/Store.vo"]
-CASE_HEADER = ("From Coq Require Import List ZArith.\nFrom EV Require Import PySlice Store.\n"
-               "Import ListNotations.\nOpen Scope bool_scope.\nOpen Scope nat_scope.\n")
+MODEL_TARGETS = ["Model/Store.vo", "Base/StoreBase.vo", "Gen/StoreGen.vo"]
+GEN_FILES = ["Gen/StoreGen.v"]
+# g_*: the definitions regenerated from the current sources (Gen/StoreGen.v), evaluated next to the hand model
+CASE_HEADER = ("From Coq Require Import List ZArith.\nFrom EV Require Import PySlice Store StoreBase StoreGen.\n"
+               "Import ListNotations.\nOpen Scope bool_scope.\nOpen Scope nat_scope.\n"
+               "Definition g_names (tag : str) (w : Z) (n : nat) : list str :=\n"
+               "  map (fun i => gen_key tag (Z.of_nat i) w) (seq 0 n).\n"
+               "Definition g_ra_ok (tail : list nat) (s : Z) (sel : list (list elem)) (lens : list Z) (data : list elem) : bool :=\n"
+               "  let gl := map (fun r => gen_load_len (zlen r) s) sel in\n"
+               "  negb (gen_single_key_test (zlen sel)) && leqb Z.eqb gl lens &&\n"
+               "  opt_eqb (leqb elem_eqb) (gen_ra_fill s sel (repeat (zero_elem tail) (Z.to_nat (zsum gl)))) (Some data).\n"
+               "Definition g_nd_ok (s : Z) (sel : list (list elem)) (data : list elem) : bool :=\n"
+               "  gen_single_key_test (zlen sel) && match sel with [r] => leqb elem_eqb (gen_single_read s r) data | _ => false end.\n"
+               "Definition g_h5_ok (s : Z) (rows : list (list elem)) (lens : list Z) : bool :=\n"
+               "  leqb Z.eqb (map (fun r => gen_h5_global_len (zlen r) s) rows) lens &&\n"
+               "  leqb (leqb elem_eqb) (gen_stripe 0 1 rows) rows.\n"
+               "Definition g_npy_ok (tail : list nat) (s : Z) (files : list (list elem)) (lens : list Z) (data : list elem) : bool :=\n"
+               "  let gl := map (fun r => gen_npy_global_len (zlen r) s) files in\n"
+               "  leqb Z.eqb gl lens &&\n"
+               "  opt_eqb (leqb elem_eqb) (gen_npy_fill s (gen_stripe 0 1 files)\n"
+               "                             (repeat (zero_elem tail) (Z.to_nat (zsum (gen_stripe 0 1 gl))))) (Some data).\n"
+               "Definition g_lac_ok (sched : list nat) (zero : elem) (lens : list Z) (blocks : list (list elem)) (xyz : list elem) : bool :=\n"
+               "  opt_eqb (leqb elem_eqb) (gen_run_jobs (pick_jobs (combine (gen_offsets lens) blocks) sched)\n"
+               "                                        (repeat zero (Z.to_nat (zsum lens)))) (Some xyz).\n")
 RULE = ("(ra) RaggedArray / ndarray inputs with 1..300 rows (row counts around the digit-count boundaries 9/10/11 and "
         "99/100/101 always present; all of 1..120 in thorough), row lengths 1..6, 1-D and multi-dimensional elements, "
         "13 dtypes incl. NaN/-0.0/inf/denormal bit patterns, strides 1..7, all rows / row subsets (reordered, repeated, "
@@ -28,7 +51,10 @@ RULE = ("(ra) RaggedArray / ndarray inputs with 1..300 rows (row counts around t
         "model is run under a random completion order of the workers. "
         "non-trivial := (ra/raw) >= 2 rows of different lengths or a stride > 1 or a proper key subset; "
         "(lac/npy) >= 2 files of different strided length")
-TRUSTED = ["PyTables/HDF5 byte fidelity of a CArray write followed by a read (modelled as a finite map name -> array)",
+TRUSTED = ["translator/tr_store.py (expressions, slices and loop bodies of ra.save / ra.load / util.load / mpi.io -> "
+           "Gen/StoreGen.v; loop skeletons and Python builtins of Base/StoreBase.v checked by correspondence; "
+           "math.ceil(n / stride) read as an exact rational ceiling: equal to the double computation while n < 2^53)",
+           "PyTables/HDF5 byte fidelity of a CArray write followed by a read (modelled as a finite map name -> array)",
            "PyTables lists the children of a group sorted by name with Python's str order (Group._f_iter_nodes)",
            "multiprocessing: fork-inherited shared mp.Array, Pool.map_async job dispatch; a worker's slice assignment "
            "touches exactly the addressed window (modelled as single-item writes landing in an arbitrary order)",
@@ -42,6 +68,10 @@ ASSUMPTIONS = ["stride >= 1 (the loaders raise or misbehave on stride < 1; outsi
                "lengths hints, when given, are the true lengths (the docstring: 'a speed benefit only')"]
 EXHAUSTIVE = {"thorough": False}
 SHARD = 40
+
+
+def translate(repo):
+    return tr_store.translate(repo)
 
 DTYPES = ["int8", "int16", "int32", "int64", "uint8", "uint16", "uint32", "uint64",
           "float16", "float32", "float64", "bool", "complex64"]
@@ -350,7 +380,7 @@ def _run_ra(c, d):
     except Exception as ex:
         return {"save_err": type(ex).__name__}
     names = _node_names(path)
-    res = {"names_n": len(names)}
+    res = {"names_n": len(names), "names": names}
     keys = Ellipsis if c["idxs"] is None else [names[i] for i in c["idxs"]]
     try:
         res["main"] = _canon(ra.load(path, keys=keys, stride=c["stride"]))
@@ -634,6 +664,30 @@ def _cfile(c):
         _cstr(nd["name"]), _dtc(nd["dtype"]), _cnl(nd["tail"]), _celems(nd["elems"])), "node")
 
 
+def _czl(l):
+    return clist(l, cz, "Z")
+
+
+def _gen_ra(c, r):
+    """the regenerated definitions (Gen/StoreGen.v) evaluated on the case: node names, announced lengths, the
+    fill loop / single-key read, the striped lengths"""
+    rows, s = c["rows"], cz(c["stride"])
+    n = len(rows)
+    w = "gen_n_zeros_nd" if c["form"] == "nd" else "(gen_n_zeros %s)" % cz(n)
+    out = " && leqb str_eqb (g_names %s %s %s) %s" % (_cstr(c["tag"]), w, cn(n), clist(r["names"], _cstr, "str"))
+    m = r["main"]
+    sel = rows if c["idxs"] is None else [rows[i] for i in c["idxs"]]
+    sel_t = clist(sel, _celems, "(list elem)")
+    if "err" not in m and m["t"] == "ra":
+        out += " && g_ra_ok %s %s %s %s %s" % (_cnl(c["tail"]), s, sel_t, _czl(m["lengths"]), _celems(m["data"]))
+    elif "err" not in m:
+        out += " && g_nd_ok %s %s %s" % (s, sel_t, _celems(m["data"]))
+    st = r["striped"]
+    if "err" not in st:
+        out += " && g_h5_ok %s %s %s" % (s, clist(rows, _celems, "(list elem)"), _czl(st["lengths"]))
+    return out
+
+
 def _cres(lengths, data):
     return "(inr (%s, %s))" % (_cnl(lengths), _celems(data))
 
@@ -675,21 +729,36 @@ def coq_check(c, r):
         st = r["striped"]
         st_t = ("(inl %s)" % _cloaded(st)) if "err" in st else _cres(st["lengths"], st["data"])
         return ("opt_eqb loaded_eqb (save_load_rows %s %s %s) (Some %s) && "
-                "opt_eqb res_eqb (save_striped %s %s) (Some %s)") % (
+                "opt_eqb res_eqb (save_striped %s %s) (Some %s)%s") % (
             args, copt(c["idxs"], _cnl, "(list nat)"), cz(c["stride"]), _cloaded(r["main"]),
-            args, cz(c["stride"]), st_t)
+            args, cz(c["stride"]), st_t, _gen_ra(c, r))
     if c["kind"] == "raw":
         return "loaded_eqb (%s) %s && leqb str_eqb (sort_keys (map nkey %s)) %s" % (
             coq_show(c), _cloaded(r["main"]), _cfile(c), clist(r["names"], _cstr, "str"))
     if c["kind"] == "npy":
         exp = ("(inl %s)" % _cloaded(r)) if "err" in r else _cres(r["lengths"], r["data"])
-        return "res_eqb (%s) %s" % (coq_show(c), exp)
+        gen = ""
+        if "err" not in r:
+            gen = " && g_npy_ok %s %s %s %s %s" % (
+                _cnl(c["files"][0]["tail"]), cz(c["stride"]),
+                clist([f["elems"] for f in c["files"]], _celems, "(list elem)"), _czl(r["lengths"]), _celems(r["data"]))
+        return "res_eqb (%s) %s%s" % (coq_show(c), exp, gen)
     if "indiv_bits" not in r or "xyz_bits" not in r:
         return None
     run = next((x for x in r["runs"].values() if x.get("digest") == r.get("xyz_digest")), None)
     if run is None:
         return None
-    return "res_eqb (%s) %s" % (_lac_term(c, r), _cres(run["lengths"], r["xyz_bits"]))
+    k = len(r["indiv_bits"][0][0]) if r["indiv_bits"] and r["indiv_bits"][0] else 0
+    gen = " && g_lac_ok %s %s %s %s %s" % (
+        _cnl(c["sched"]), clist([0] * k, cz, "Z"), _czl(run["lengths"]),
+        clist(r["indiv_bits"], _celems, "(list elem)"), _celems(r["xyz_bits"]))
+    if c["hint"]:
+        gen += " && negb (gen_hint_bad %s %s)" % (cz(len(run["lengths"])), cz(len(c["files"])))
+    else:       # sounded: the generated ordered-starmap-plus-insert gives the lengths, in file order
+        gen += " && leqb Z.eqb (gen_lac_lengths %s) %s" % (
+            clist(list(zip(c["files"], r["nframes"])), lambda t: "(%s, %s, %s)" % (
+                cz(t[1]), cz(t[0]["stride"]), cb(t[0]["frame"] is not None)), "trjspec"), _czl(run["lengths"]))
+    return "res_eqb (%s) %s%s" % (_lac_term(c, r), _cres(run["lengths"], r["xyz_bits"]), gen)
 
 
 # ----------------------------------------------------------------------------- evidence
